@@ -815,6 +815,32 @@ func (g *c22Gen) rewrites(b *c22Base) []c22Rw {
 			out = append(out, c22Rw{kind: "leaf-replace-vs-update", sub: "update->replace", b: nb, splitA: split, splitB: split})
 		}
 	}
+	// 6. one JSON update versus two JSON updates at the same path that carry its members between them
+	{
+		var idx []int
+		for i, u := range r.upds {
+			if u.json {
+				idx = append(idx, i)
+			}
+		}
+		g.rng.Shuffle(len(idx), func(i, j int) { idx[i], idx[j] = idx[j], idx[i] })
+		for _, i := range idx {
+			h1, h2, ok := c22SplitJSON(g.rng, r.upds[i].val)
+			if !ok {
+				continue
+			}
+			nb := r.clone()
+			u1, u2 := r.upds[i], r.upds[i]
+			u1.val, u2.val = h1, h2
+			rest := append(append([]c22U{}, r.upds[:i]...), r.upds[i+1:]...)
+			k1 := g.rng.Intn(len(rest) + 1)
+			rest = append(append(append([]c22U{}, rest[:k1]...), u1), rest[k1:]...)
+			k2 := g.rng.Intn(len(rest) + 1)
+			nb.upds = append(append(append([]c22U{}, rest[:k2]...), u2), rest[k2:]...)
+			out = append(out, c22Rw{kind: "json-split", sub: "update", b: nb, splitA: split, splitB: split})
+			break
+		}
+	}
 	// 5. a duplicated identical update
 	if len(r.upds) > 0 {
 		i := g.rng.Intn(len(r.upds))
@@ -831,6 +857,35 @@ func (g *c22Gen) rewrites(b *c22Base) []c22Rw {
 		out = append(out, c22Rw{kind: "dup", sub: sub, b: nb, splitA: split, splitB: split})
 	}
 	return out
+}
+
+// c22SplitJSON splits the members of a JSON-IETF object between two objects (both non-empty).
+// The members of an object are written independently of each other, so two updates at one path
+// with the two halves have the intent of the single update (in either order: the halves are
+// disjoint).
+func c22SplitJSON(rng *rand.Rand, tv *gpb.TypedValue) (*gpb.TypedValue, *gpb.TypedValue, bool) {
+	var m map[string]json.RawMessage
+	if err := json.Unmarshal(tv.GetJsonIetfVal(), &m); err != nil || len(m) < 2 {
+		return nil, nil, false
+	}
+	var ks []string
+	for k := range m {
+		ks = append(ks, k)
+	}
+	sort.Strings(ks)
+	rng.Shuffle(len(ks), func(i, j int) { ks[i], ks[j] = ks[j], ks[i] })
+	cut := 1 + rng.Intn(len(ks)-1)
+	a, b := map[string]json.RawMessage{}, map[string]json.RawMessage{}
+	for i, k := range ks {
+		if i < cut {
+			a[k] = m[k]
+		} else {
+			b[k] = m[k]
+		}
+	}
+	ja, _ := json.Marshal(a)
+	jb, _ := json.Marshal(b)
+	return &gpb.TypedValue{Value: &gpb.TypedValue_JsonIetfVal{JsonIetfVal: ja}}, &gpb.TypedValue{Value: &gpb.TypedValue_JsonIetfVal{JsonIetfVal: jb}}, true
 }
 
 // mutate returns a request with a DIFFERENT intent (for non-trivial diffs in the swap law).
@@ -1353,6 +1408,8 @@ func c22Corpus() []c22Fixed {
 			&gpb.SetRequest{Update: []*gpb.Update{c22Upd("/top/lls/ll-str", c22LL("a", "b")), c22Upd("/top/lls/ll-str", c22LL("a", "b"))}}, false},
 		{"dup", "json", &gpb.SetRequest{Update: []*gpb.Update{c22Upd("/top/lls", c22JS(`{"ll-str":["a"]}`))}},
 			&gpb.SetRequest{Update: []*gpb.Update{c22Upd("/top/lls", c22JS(`{"ll-str":["a"]}`)), c22Upd("/top/lls", c22JS(`{"ll-str":["a"]}`))}}, false},
+		{"json-split", "update", &gpb.SetRequest{Update: []*gpb.Update{c22Upd("/top/scalars", c22JS(`{"str":"a","u8":3}`))}},
+			&gpb.SetRequest{Update: []*gpb.Update{c22Upd("/top/scalars", c22JS(`{"u8":3}`)), c22Upd("/top/scalars", c22JS(`{"str":"a"}`))}}, false},
 		// with a schema the leaf under an escaped key is silently dropped from both intents
 		{"mutation", "value-under-escaped-key", &gpb.SetRequest{Update: []*gpb.Update{c22Upd(`/top/l-str[k=x\=y]/c/z`, c22Str("1"))}},
 			&gpb.SetRequest{Update: []*gpb.Update{c22Upd(`/top/l-str[k=x\=y]/c/z`, c22Str("2"))}}, false},
